@@ -246,6 +246,13 @@ def not_ens(v, out):
     return And(boolean_result(_as_out(r.value), Not(truth(v))), r.log == ['x'])
 
 
+# an empty cell that a range of some formula covers is stored with the value '' and reads as the empty text: it is blank for NOT as it
+# is for IF / AND / OR
+UNITS.append(Unit(id='C10/logical.NOT/empty_cell_held_as_empty_text', target=f'{MOD}:NOT',
+                  inputs=[('v', Const(spec.T().Text(''), "Text('') - an empty cell held as ''"))],
+                  cases=[Case('NOT of an empty cell is TRUE (blank counts as FALSE), also when the model holds the cell as the empty text', lambda v: True,
+                              lambda v, out: out.kind == 'ret' and boolean_result(_as_out(R(out).value), True) and R(out).log == ['x'])],
+                  call=not_call(False), native_call=not_call(True)))
 UNITS.append(Unit(id='C10/logical.NOT', target=f'{MOD}:NOT', inputs=[('v', Fork(VALS + ERRS))],
                   cases=[Case('NOT negates the truth value; an error is the result', lambda v: True, not_ens)],
                   canary=Case('canary', lambda v: True, lambda v, out: out.kind == 'ret' and boolean_result(_as_out(R(out).value), True)),
